@@ -40,6 +40,7 @@ type c10Tx struct {
 	tables  []string // pre-existing tables touched
 	links   []string // those of them that are symbolic links to store/<name>
 	stale   []string // those of them next to which a stale temp file lies
+	ro      []string // those of them whose file mode is 0444
 }
 
 // c10Link turns the named tables of a freshly copied directory into symbolic links to store/<name>.
@@ -52,6 +53,14 @@ func c10Link(dir string, links []string) {
 }
 
 // c10Stale leaves the temp file of an earlier, killed run next to the named tables (the user removed only the lock file).
+// c10ReadOnly takes the owner's write permission from the named tables (mode 0444: a table somebody protected, still writable for
+// the super-user these runs are, or through an ACL).
+func c10ReadOnly(dir string, names []string) {
+	for _, n := range names {
+		_ = os.Chmod(filepath.Join(dir, n), 0444)
+	}
+}
+
 func c10Stale(dir string, names []string) {
 	for _, n := range names {
 		_ = os.WriteFile(filepath.Join(dir, "."+n+".temp"), []byte("half written by a run that was killed\n"), 0600)
@@ -91,6 +100,8 @@ func genC10Tx(r *core.Rng, forceLink bool) c10Tx {
 		tx.tables = append(tx.tables, name)
 		if r.P(25) || (k == 0 && forceLink) {
 			tx.links = append(tx.links, name)
+		} else if r.P(30) {
+			tx.ro = append(tx.ro, name)
 		}
 		tbl := "`" + name + "`"
 		switch r.Intn(4) {
@@ -121,6 +132,18 @@ func c10Case(w *core.Worker, i int) {
 	if i%4 == 3 {
 		tx.stale = tx.tables[:1]
 	}
+	if i%4 == 2 && len(tx.ro) == 0 {
+		for _, n := range tx.tables {
+			isLink := false
+			for _, l := range tx.links {
+				isLink = isLink || l == n
+			}
+			if !isLink {
+				tx.ro = []string{n}
+				break
+			}
+		}
+	}
 	base := core.FreshDir(w.Work, "base")
 	core.WriteFiles(base, tx.files)
 	txDigest := core.Digest(tx.program, fmt.Sprint(len(tx.files)))
@@ -133,6 +156,7 @@ func c10Case(w *core.Worker, i int) {
 	copyDir(base, clean)
 	c10Link(clean, tx.links)
 	c10Stale(clean, tx.stale)
+	c10ReadOnly(clean, tx.ro)
 	res := run(clean, nil, nil)
 	if res.Code != 0 && len(tx.stale) > 0 && !strings.Contains(res.Stderr, "Fatal Error") {
 		// refusing to touch a table next to a stale temp file is a legitimate answer — then nothing may have changed;
@@ -178,6 +202,7 @@ func c10Case(w *core.Worker, i int) {
 	copyDir(base, tr)
 	c10Link(tr, tx.links)
 	c10Stale(tr, tx.stale)
+	c10ReadOnly(tr, tx.ro)
 	tracePath := filepath.Join(w.Work, "trace.log")
 	_ = os.Remove(tracePath)
 	res = run(tr, []string{"VERIF_TRACE=" + tracePath}, nil)
@@ -229,6 +254,7 @@ func c10Case(w *core.Worker, i int) {
 		copyDir(base, d)
 		c10Link(d, tx.links)
 		c10Stale(d, tx.stale)
+		c10ReadOnly(d, tx.ro)
 		p := run(d, []string{"VERIF_CRASH_AT=" + at}, nil)
 		if p.Signal != 9 {
 			w.Inconclusive(fmt.Sprintf("crash at %s did not kill the process (%s)", at, p))
@@ -243,6 +269,9 @@ func c10Case(w *core.Worker, i int) {
 	w.Count("crash_runs", int64(fired))
 	if len(tx.links) > 0 {
 		w.Count("transactions_with_a_symlinked_table", 1)
+	}
+	if len(tx.ro) > 0 {
+		w.Count("transactions_with_a_write-protected_table", 1)
 	}
 
 	// syscall walk with strace (thorough, first 20 transactions)
@@ -285,6 +314,7 @@ func c10Syscalls(w *core.Worker, tx c10Tx, base string, run func(string, []strin
 	copyDir(base, cnt)
 	c10Link(cnt, tx.links)
 	c10Stale(cnt, tx.stale)
+	c10ReadOnly(cnt, tx.ro)
 	out := filepath.Join(w.Work, "strace.cnt")
 	p := run(cnt, []string{"GOMAXPROCS=1"}, []string{"strace", "-f", "-c", "-o", out, "-e", "trace=" + strings.Join(calls, ",")})
 	if p.Code != 0 {
@@ -318,6 +348,7 @@ func c10Syscalls(w *core.Worker, tx c10Tx, base string, run func(string, []strin
 			copyDir(base, d)
 			c10Link(d, tx.links)
 			c10Stale(d, tx.stale)
+			c10ReadOnly(d, tx.ro)
 			at := fmt.Sprintf("syscall:%s#%d", sc, n)
 			p := run(d, []string{"GOMAXPROCS=1"}, []string{"strace", "-f", "-o", "/dev/null", "-e", "trace=" + sc, "-e", fmt.Sprintf("inject=%s:signal=SIGKILL:when=%d", sc, n)})
 			if p.Signal != 9 && p.Code != 137 && p.Code != -1 {
@@ -342,6 +373,7 @@ func c10Syscalls(w *core.Worker, tx c10Tx, base string, run func(string, []strin
 		copyDir(base, d)
 		c10Link(d, tx.links)
 		c10Stale(d, tx.stale)
+		c10ReadOnly(d, tx.ro)
 		pre := []string{"strace", "-f", "-o", "/dev/null", "-e", "trace=rename,renameat,renameat2,write", "-e", "inject=rename,renameat,renameat2:error=EPERM"}
 		at := "rename-refused"
 		if n > 0 {
@@ -367,6 +399,7 @@ func c10Syscalls(w *core.Worker, tx c10Tx, base string, run func(string, []strin
 		copyDir(base, d)
 		c10Link(d, tx.links)
 		c10Stale(d, tx.stale)
+		c10ReadOnly(d, tx.ro)
 		p := run(d, []string{"GOMAXPROCS=1"}, []string{"strace", "-f", "-o", "/dev/null", "-e", "trace=write", "-e", fmt.Sprintf("inject=write:error=ENOSPC:when=%d", n)})
 		if p.Code == 0 && !strings.Contains(p.Stderr, "no space left") {
 			// the failing write was not one of the commit's (or did not happen in this thread): judged all the same
